@@ -582,19 +582,30 @@ def _tlc_on_proxy(cfg, actions, min_cases, workers):
     return res, acc
 
 
-def _prefetch(ctx, specs, parallel=4):
-    """Start the TLC runs of several slices concurrently (they are independent; most of a quick slice is JVM
-    start-up); results are consumed in order by _slice, accounting is merged on the main thread."""
+_PLAN = {"specs": [], "next": 0, "window": 0, "pool": None, "workers": 4}
+
+
+def _prefetch(ctx, specs, parallel=4, window=None, workers=4):
+    """Run the TLC part of the slices ahead of their replay, `parallel` at a time and at most `window` results
+    ahead of the consumer (the slices are independent; most of a quick slice is JVM start-up).  Results are
+    consumed in order by _slice; accounting is merged on the main thread."""
     from concurrent.futures import ThreadPoolExecutor
-    pool = ThreadPoolExecutor(max_workers=parallel)
-    for cfg, actions, min_cases in specs:
-        _PREFETCH[cfg] = pool.submit(_tlc_on_proxy, cfg, actions, min_cases, 4)
-    pool.shutdown(wait=False)
+    _PLAN.update(specs=list(specs), next=0, window=window or len(specs), pool=ThreadPoolExecutor(max_workers=parallel),
+                 workers=workers)
+    _advance()
+
+
+def _advance():
+    while _PLAN["next"] < len(_PLAN["specs"]) and len(_PREFETCH) < _PLAN["window"]:
+        cfg, actions, min_cases = _PLAN["specs"][_PLAN["next"]]
+        _PREFETCH[cfg] = _PLAN["pool"].submit(_tlc_on_proxy, cfg, actions, min_cases, _PLAN["workers"])
+        _PLAN["next"] += 1
 
 
 def _slice(ctx, cfg, n_pick, actions, via_tlc=False, min_cases=50, always=None):
     if cfg in _PREFETCH:
         res, acc = _PREFETCH.pop(cfg).result()     # a MachineryFailure of the run is re-raised here
+        _advance()
         ctx.states += acc.states
         ctx.transitions += acc.transitions
         ctx.tlc_runs.extend(acc.tlc_runs)
@@ -855,6 +866,12 @@ def run(ctx):
                         ("subyld_q", [], 2000), ("pair_q", ["GenQuery2"], 50), ("conv_q", [], 1000),
                         ("cat3_q", ["GenQueryCat"], 50), ("bounds_q", [], 1000), ("twin", [], 3000),
                         ("hist_q", hist_actions, 50)])
+    else:
+        hist_actions = ["PickRx", "GenMake", "GenSplit", "GenSubset", "GenAdd", "GenQuery", "GenQueryCat"]
+        _prefetch(ctx, [("ctor_t", [], 50), ("graph_t", [], 2000), ("chain_t", [], 600), ("dot_t", [], 1000),
+                        ("subset_t", [], 50), ("yields_t", [], 50), ("pair_t", ["GenQuery2"], 50), ("conv_t", [], 1000),
+                        ("cat3_t", ["GenQueryCat"], 50), ("bounds_t", [], 1000), ("twin", [], 3000),
+                        ("hist_t", hist_actions, 50), ("hist2_t", [], 50)], parallel=2, window=3, workers=8)
     # (vacuity guard by -coverage only where an action is specific to the slice; it slows TLC down)
     _slice(ctx, "ctor_" + sfx, None if not q else 1000, [])
     _slice(ctx, "graph_" + sfx, 1500 if q else None, [], min_cases=2000)
@@ -881,13 +898,13 @@ def run(ctx):
     # (histories "add then subset" - class suffix :AS - are always replayed)
     _slice(ctx, "twin", 500 if q else None, [], via_tlc=True, min_cases=3000,
            always=lambda c: c["cls"].endswith(":AS"))
-    _slice(ctx, "hist_" + sfx, 1200 if q else 12000, ["PickRx", "GenMake", "GenSplit", "GenSubset", "GenAdd", "GenQuery", "GenQueryCat"], via_tlc=True,
+    _slice(ctx, "hist_" + sfx, 1200 if q else 8000, ["PickRx", "GenMake", "GenSplit", "GenSubset", "GenAdd", "GenQuery", "GenQueryCat"], via_tlc=True,
            always=_peek_then_change)
     if not q:
-        _slice(ctx, "hist2_t", 12000, [], via_tlc=True, always=_peek_then_change)
+        _slice(ctx, "hist2_t", 8000, [], via_tlc=True, always=_peek_then_change)
     t0 = _t(ctx, "histories", t0)
     ctx.exhaustive = not q
-    _code_to_spec(ctx, 500 if q else 12000)
+    _code_to_spec(ctx, 500 if q else 9000)
     _t(ctx, "seeded", t0)
 
 
